@@ -1,13 +1,14 @@
 (* RunC10.v -- runner for C10.  Case:
      (case <ver> (rdoc <doc> (bms (<parent> (<num> <gen>)) ...)) <start>)
-   ver = v1 (the model of the current code) | v0 (the model of the pinned, unrepaired code)
+   ver = v1 (the model of the current code, with the i32 page counter) | v0 (the model of the pinned, unrepaired code)
+       | vd (the model before the repair of dangling-in-range, Model/RenumberV1.v)
        | kc (no renumbering: evaluate the known-finding class predicate KnownClass of Props/C10.v on the
          input, result (known 0|1); props/c10.py checks its Python mirror `classify` against it);
    bookmarks are added one by one with add_bookmark (parent = none | <bookmark id>).
    Result: (done <doc'> (bm (<id> (<child>...) (<num> <gen>)) ...) (pages (<num> <gen>)...))
          | (panic) | (stackoverflow) | (outoffuel) | badcase *)
 From LV Require Import Base.Bytes Base.Sx Model.Obj Model.DocQ Model.PageTree Model.Traverse
-  Model.Renumber Model.RenumberV0 Proofs.RenumberProofsTop.
+  Model.Renumber Model.RenumberV0 Model.RenumberV1 Proofs.RenumberProofsTop.
 
 Definition bm_spec_of_sx (x : sx) : option (option N * oid) :=
   match x with
@@ -52,7 +53,8 @@ Definition run (x : sx) : sx :=
     match rdoc_of_sx rx, as_N st with
     | Some d, Some start =>
       if is_id ver "v0" then outcome_to_sx (renumber_objects_with_v0 start d)
-      else if is_id ver "v1" then outcome_to_sx (renumber_objects_with start d)
+      else if is_id ver "v1" then outcome_to_sx (renumber_objects_with_i32 start d)
+      else if is_id ver "vd" then outcome_to_sx (renumber_objects_with_v1 start d)
       else if is_id ver "kc" then SL [sx_id "known"; sx_N (if KnownClass start d then 1 else 0)]
       else sx_id "badcase"
     | _, _ => sx_id "badcase"
